@@ -33,7 +33,8 @@
 EXTENDS Naturals, Sequences, FiniteSets, TLC, Json, LoaderProvider
 
 CONSTANTS
-  Scenarios,   \* the scenarios Init chooses from
+  ScenarioSets,\* a sequence of sets of scenarios; Init chooses one scenario of one of the sets
+               \* (a sequence of sets, not their union: TLC unions big sets of records quadratically)
   Order        \* "textual" | "any"
 \* Dev (deviation clauses switched on; documented semantics: {}) is declared in LoaderProvider,
 \* which also defines Provider(registeredKeys, cls, attr, hasGrammarRrel) -- the `provider = ...`
@@ -122,7 +123,7 @@ InitWith(s) ==
   /\ outcome = [kind |-> "running", names |-> <<>>]
   /\ op = [m |-> 0, r |-> 0, attempt |-> 0, ans |-> "-"]
 
-Init == \E s \in Scenarios : InitWith(s)
+Init == \E i \in DOMAIN ScenarioSets : \E s \in ScenarioSets[i] : InitWith(s)
 
 \* `while unresolved_count > 0 and resolved_count > 0:` taken -- a new round
 BeginRound ==
